@@ -8,10 +8,13 @@ Inductive case :=
    the outcome o; impl = ledger of the counting store (L/U/Get/Store) and of the wrapper around
    the process (RunBegin/RunEnd).  real: the same session replayed in a child process with the
    real sync.Mutex store: 0 not replayed, 1 completed and a later Lock succeeded, 2 the child died
-   with "fatal error: sync: unlock of unlocked mutex", 3 a later Lock blocked *)
-| Session (k : kind) (o : outcome) (impl : list ev) (real : nat)
-(* several sessions one after the other on the same store *)
-| Sequence (ss : list (kind * outcome)) (impl : list ev).
+   with "fatal error: sync: unlock of unlocked mutex", 3 a later Lock blocked (a following
+   constructor or the final probe of both stores did not get the mutex);
+   sh: the state the key-share file was put in before the constructor ran *)
+| Session (k : kind) (o : outcome) (sh : share) (impl : list ev) (real : nat)
+(* several sessions one after the other on the same store, each finding the share file in the
+   state given; real as above (the whole sequence replayed on the real stores) *)
+| Sequence (ss : list (share * (kind * outcome))) (impl : list ev) (real : nat).
 
 Definition ev_eqb (a b : ev) : bool :=
   match a, b with
@@ -28,14 +31,14 @@ Fixpoint evs_eqb (a b : list ev) : bool :=
 
 Definition agree (c : case) : bool :=
   match c with
-  | Session k o impl _ => feasible k o && evs_eqb (session_events New k o) impl
-  | Sequence ss impl => all_feasible ss && evs_eqb (sessions_events New ss) impl
+  | Session k o sh impl _ => feasible_in sh k o && evs_eqb (session_events New k o) impl
+  | Sequence ss impl _ => all_feasible_in ss && evs_eqb (sessions_events New (map snd ss)) impl
   end.
 
 Definition judge (c : case) : bool :=
   match c with
-  | Session k o impl real => session_ok k impl && Nat.leb real 1
-  | Sequence ss impl => sequence_ok impl
+  | Session k o sh impl real => session_ok k impl && Nat.leb real 1
+  | Sequence ss impl real => sequence_ok impl && Nat.leb real 1
   end.
 
 Definition kind_ix (k : kind) : N :=
@@ -43,12 +46,15 @@ Definition kind_ix (k : kind) : N :=
              | EcdsaSigning => 4 | FrostSigning => 5 end.
 Definition outcome_ix (o : outcome) : N :=
   match o with NeverSilent => 0 | NeverTimeout => 1 | NeverCancelled => 2 | StartMalformed => 3
-             | ParamsRejected => 4 | RanFailed => 5 | RanSucceeded => 6 | Refused => 7 end.
+             | ParamsRejected => 4 | RanFailed => 5 | RanSucceeded => 6 | Refused => 7
+             | ConstructorFails => 8 end.
+Definition share_ix (sh : share) : N :=
+  match sh with Readable => 0 | Missing => 1 | Corrupt => 2 | Unreadable => 3 end.
 
 Definition tag (c : case) : N :=
   match c with
-  | Session k o _ _ => (kind_ix k * 8 + outcome_ix o)%N
-  | Sequence _ _ => 100%N
+  | Session k o sh _ _ => (kind_ix k * 9 + outcome_ix o + 100 * share_ix sh)%N
+  | Sequence _ _ _ => 1000%N
   end.
 
 Definition check_all := check_cases agree judge tag.
